@@ -41,14 +41,16 @@ Record backoff := mkbackoff {
 
 Definition default_mul : rat := mkrat default_multiplier_num default_multiplier_den.
 Definition default_jitter : rat := mkrat default_jitter_num default_jitter_den.
-Definition jitter_off : rat := rz (-1).
+(* the "no randomization" flag: the literal of nextInterval (client.go:213), re-read from the code *)
+Definition jitter_off : rat := rz next_interval_flag.
 
-(* mergeDefaults, client.go:140-148 *)
+(* mergeDefaults, client.go:140-148; the literals of its comparisons are re-read from the code (Params.v) *)
 Definition merge_defaults (b : backoff) : backoff :=
   mkbackoff
-    (if bo_initial b <=? 0 then default_initial_interval else bo_initial b)
-    (if rlt (bo_mul b) (rz 1) then default_mul else bo_mul b)
-    (if (rle (bo_jitter b) (rz 0) && negb (req (bo_jitter b) jitter_off)) || rle (rz 1) (bo_jitter b)
+    (if bo_initial b <=? merge_initial_le then default_initial_interval else bo_initial b)
+    (if rlt (bo_mul b) (rz merge_multiplier_lt) then default_mul else bo_mul b)
+    (if (rle (bo_jitter b) (rz merge_jitter_le) && negb (req (bo_jitter b) (rz merge_jitter_flag)))
+        || rle (rz merge_jitter_ge) (bo_jitter b)
      then default_jitter else bo_jitter b)
     (bo_max_interval b) (bo_max_elapsed b) (bo_max_retries b).
 
